@@ -25,6 +25,13 @@ func Addr(i int) netip.Addr {
 	return netip.AddrFrom4([4]byte{127, byte(50 + sh%100), byte(pid>>6) | 1, byte((pid&63)<<2 | i&3)})
 }
 
+// AddrN is like Addr for up to 16 addresses per process (a separate range from Addr).
+func AddrN(i int) netip.Addr {
+	pid := os.Getpid()
+	sh, _ := strconv.Atoi(os.Getenv("VERIF_SHARD"))
+	return netip.AddrFrom4([4]byte{127, byte(150 + sh%100), byte(pid>>4) | 1, byte((pid&15)<<4 | i&15)})
+}
+
 func UDPAddr(a netip.Addr, port int) *net.UDPAddr {
 	return &net.UDPAddr{IP: a.AsSlice(), Port: port}
 }
